@@ -46,6 +46,7 @@ def ob_sql_limit(l1: int, l2: int, two: bool, m: int, shape: int) -> str:
 
     filters = [q(n1)] + ([q(n2)] if two else [])
     text, _ = sub.build_query(filters)
+    text = text.rendered() if hasattr(text, "rendered") else text
     try:
         stmt = sqlmini.parse(text)
     except sqlmini.Unsupported as e:
@@ -64,3 +65,36 @@ def ob_sql_limit(l1: int, l2: int, two: bool, m: int, shape: int) -> str:
     if eff[0] != eff[1] and stmt["limit"] != max(eff):
         return "two filters with effective limits %r share one LIMIT %d" % (eff, stmt["limit"])
     return "ok"
+
+
+@obligation(funcs=["storage.db.Subscription.build_query"], timeout=(120, 600),
+            bounds="two REQs in one process with the same conditions and different limits (selectors): the second statement carries "
+                   "the second REQ's limit (no state is carried between statements)")
+def ob_sql_limit_two_requests(l1: int, l2: int, shape: int) -> str:
+    """
+    pre: 0 <= l1 < 6 and 0 <= l2 < 6 and 0 <= shape < 2
+    post: _.startswith("ok")
+    """
+    logging.disable(logging.CRITICAL)
+    from vk.ob import fresh_module_state
+    from nostr_relay.storage import db as D
+    fresh_module_state(D)
+    for k, v in list(vars(D.Subscription).items()):
+        if type(v) in (dict, list, set) and not k.startswith("__"):
+            v.clear()            # class-level caches
+    S.capture_text()
+    out = []
+    for n in (pick(LIMITS, l1), pick(LIMITS, l2)):
+        sub = S.subscription(default_limit=6000)
+        kw = dict(ids=None, authors=None, kinds=[1] if shape == 0 else None, since=None, until=None, search=None,
+                  tags=[("e", ["x"])] if shape == 1 else None)
+        text, _ = sub.build_query([NostrQuery.model_construct(limit=n, **kw)])
+        text = text.rendered() if hasattr(text, "rendered") else text
+        try:
+            out.append(sqlmini.parse(text)["limit"])
+        except sqlmini.Unsupported as e:
+            return "harness-error: statement outside the modelled grammar (%s)" % e
+    want = [min(pick(LIMITS, l1), 6000), min(pick(LIMITS, l2), 6000)]
+    if out != want:
+        return "limits %r then %r produced LIMIT %r" % (pick(LIMITS, l1), pick(LIMITS, l2), out)
+    return "ok" if want[0] != want[1] else "ok-same"
